@@ -248,6 +248,56 @@ def skipped_items(ctx, R):
                        "checker is documented to catch it for any schema" % (name, n["k"], what))
     R.units["checker_skips"] = nsk
 
+    # rows of the introspection query reach the probe loop without loss: between run_query(..) and the `for` that probes the adapter
+    # only count-preserving steps may stand (map / inspect / enumerate / sort / collect into a sequence). A filter, take, skip, dedup
+    # or a collect into a map / set keyed by part of the row silently drops items (seed C25-3: BTreeMap keyed by `coerce_to`
+    # keeps one interface per type).
+    KEEP = {"map", "inspect", "into_iter", "iter", "enumerate", "rev", "peekable", "by_ref", "cloned", "copied", "sorted", "sorted_by",
+            "sorted_by_key", "sorted_unstable", "chain", "collect_vec", "expect", "unwrap", "fuse"}
+    SEQ = ("alloc::vec::Vec<", "alloc::collections::vec_deque::VecDeque<", "alloc::boxed::Box<[", "smallvec::SmallVec<")
+    for name in ("check_properties_are_implemented", "check_edges_are_implemented", "check_type_coercions_are_implemented"):
+        f = C.fn(H + name)
+        if f is None:
+            continue
+        index = list(walk_with_ctx(f["body"]))
+
+        def flow(n, anc, depth=0):
+            """Name of the first lossy step applied to the value of n (followed through receivers and let-bound locals), or None."""
+            cur = n
+            for p in reversed(anc):
+                if p.get("k") == "mcall" and (strip(p.get("recv", {})) is cur or p.get("recv") is cur):
+                    nm = p.get("name")
+                    if nm == "collect":
+                        ty = C.S(p.get("ty")) or ""
+                        if not ty.startswith(SEQ):
+                            return "collect::<%s>" % ty.split("<")[0].split("::")[-1]
+                    elif nm not in KEEP:
+                        return nm
+                    cur = p
+                    continue
+                if p.get("k") in ("ref", "paren", "block") or (p.get("k") == "call" and (p.get("callee") or "").endswith("Box::<T>::new")):
+                    cur = p
+                    continue
+                if p.get("k") == "call" and (p.get("callee") or "").endswith("IntoIterator::into_iter"):
+                    return None                # the for loop
+                if p.get("k") == "let" and p.get("init") is cur and p.get("pat", {}).get("k") == "bind" and depth < 6:
+                    for m, manc in index:
+                        if m.get("k") == "local" and m.get("bid") == p["pat"].get("bid"):
+                            w = flow(m, manc, depth + 1)
+                            if w is not None:
+                                return w
+                    return None
+                break
+            return None
+        srcs = [(n, anc) for n, anc in index if n.get("k") == "call" and (n.get("callee") or "").endswith("::run_query")]
+        if len(srcs) != 1:
+            R.fail("r4", "anchor:run_query/%s" % name, C.loc(f["sp"]), "%s must run its introspection query once (found %d run_query calls)" % (name, len(srcs)))
+            continue
+        lossy = flow(*srcs[0])
+        R.check(lossy is None, "r4", "rows-reach-the-probe-loop/%s" % name, C.loc(srcs[0][0]["sp"]),
+                "%s passes the rows of its introspection query through `%s` before probing the adapter: rows can be dropped (for a map / "
+                "set, every row whose key repeats), so some types / fields / coercions are never checked" % (name, lossy))
+
     # the mapping of serialized defaults: None only for a missing default
     f = C.fn(H + "check_edges_are_implemented")
     if f is None:
